@@ -26,7 +26,8 @@ let kind_ctx (kind : string) =
   let ex = label "example" in
   match k with
   | "n" | "d" -> (0, 0, Some [label l; ex], None, true)
-  | "w" -> (0, 0, Some [label l; label "w"; ex], Some [label "*"; label "w"; ex], true)
+  | "w" | "y" | "z" -> (0, 0, Some [label l; label "w"; ex], Some [label "*"; label "w"; ex], true)
+  | "c" -> (0, 0, Some [label l; label "cw"; ex], Some [label "*"; label "cw"; ex], true)
   | "x" -> (0, 3, Some [label l; label "nx"; ex], None, true)
   | "r" -> (0, 5, Some [label l; label "other"], None, true)
   | "f" -> (0, 1, None, None, true)
